@@ -48,6 +48,11 @@ func (s *Sizes) Alignof(T types.Type) int64 {
 		return max
 	}
 	a := s.Sizeof(T) // may be 0
+	if b, ok := T.Underlying().(*types.Basic); ok && b.Info()&types.IsComplex != 0 {
+		// complex64 and complex128 are aligned like their real and
+		// imaginary parts.
+		a /= 2
+	}
 	if a < 1 {
 		return 1
 	}
